@@ -175,7 +175,8 @@ fn summary_case(id: &str, r: &mut Rng, root: &Path, home: &Path, out: &mut Strin
     match expect {
         None => out.push_str(&format!("impl skipped exit={}\n", rc)), // erroneous history: not C10's domain
         Some(e) => {
-            if stdout == e {
+            // letter case of affiliate names: see symbase_case
+            if stdout.to_lowercase() == e.to_lowercase() {
                 out.push_str(&format!("impl same exit={} bytes={}\n", rc, stdout.len()));
             } else {
                 out.push_str(&format!("impl differ exit={}/0 {}\n", rc, oneline(&first_diff_line(&stdout, &e))));
@@ -266,9 +267,12 @@ fn symbase_case(id: &str, r: &mut Rng, root: &Path, home: &Path, out: &mut Strin
             match libout {
                 Ok((ok, text)) => {
                     // the front end appends a list of the failing securities to the report
+                    // (an affiliate is shown in the spelling under which the PROCESS first met it: the
+                    // child process and this one may differ in that, so letter case is not compared)
+                    let (stdout, text) = (stdout.to_lowercase(), text.to_lowercase());
                     let rest_ok = stdout.starts_with(&text) && {
                         let rest = stdout[text.len()..].trim();
-                        rest.is_empty() || rest.starts_with("[!] There are errors for the following securities")
+                        rest.is_empty() || rest.starts_with("[!] there are errors for the following securities")
                     };
                     if rest_ok && (ok == (rc == 0)) {
                         out.push_str(&format!("impl same exit={} bytes={}\n", rc, stdout.len()));
